@@ -116,9 +116,6 @@ def predicates(dom, mesh):
             out.append(('vertex_duplicate', {'xy': key}))
             break
         coords[key] = v
-        if v.idx != i:
-            out.append(('vertex_idx', {'pos': i, 'idx': v.idx}))
-            break
     return out
 
 
